@@ -292,6 +292,7 @@ func (w *World) Boot() *Incarnation {
 		crq := NewDetQueue("cron", w.Clk.Now)
 		crctx := croncontroller.NewContext(inc.Ctx)
 		crctx.VerifSetQueue(crq)
+		crq.OnAdd = func(item interface{}) { w.Mon.onCronRequest(inc, item) }
 		inc.Cron = croncontroller.NewCronWorker(crctx, croncontroller.VerifNewEnqueueHandler(crctx))
 		croncontroller.NewInformerWorker(crctx, croncontroller.NewUpdateHandler(crctx)).Init()
 		if err := inc.Cron.Init(); err != nil {
@@ -693,6 +694,19 @@ func (w *World) Run() {
 			w.Clk.SetTime(w.Clk.Now().Add(time.Second))
 		}
 	}
+}
+
+// CtrlCalls returns the number of gated controller API calls made so far (the fault-point index space).
+func (w *World) CtrlCalls() int { return w.ctrlCall }
+
+// CronQueue returns the cron controller's workqueue of the current incarnation (nil without cron).
+func (w *World) CronQueue() *DetQueue {
+	for _, c := range w.Inc.Ctls {
+		if c.Name == "cron" {
+			return c.Q
+		}
+	}
+	return nil
 }
 
 // AdvanceTo moves the virtual clock forward (used for downtime between crash and restart).
